@@ -392,6 +392,18 @@ fn run_dec(a: &[&str]) -> (String, String) {
     (canon, String::new())
 }
 
+// decseq h1 b1 h2 b2 ... : several decode_body calls one after the other on this thread (a caller that
+// decodes message after message); each call must behave as if it were the only one
+fn run_decseq(a: &[&str]) -> (String, String) {
+    let mut out = Vec::new();
+    for pair in a.chunks(2) {
+        if pair.len() == 2 {
+            out.push(run_dec(pair).0);
+        }
+    }
+    (out.join("|"), String::new())
+}
+
 fn run_txt(a: &[&str]) -> (String, String) {
     let h = build_headers(a[0]);
     let body = unhex(a[1]);
@@ -535,8 +547,33 @@ fn run_genresp(a: &[&str]) -> (String, String) {
 fn run_rtreq(a: &[&str]) -> (String, String) {
     let input = unhex(a[3]);
     let mut r = new_request(a[0], a[1], a[2]);
-    let canon = match r.parse(&input) {
-        Ok(res) if res.status == RequestParseStatus::Complete => match measure(|| r.generate()) {
+    // optional a[5]: the first parse is fed in these deliveries (documented protocol) instead of one call
+    let first = match a.get(5).filter(|s| **s != "-") {
+        Some(spec) => {
+            let dels = deliveries(spec);
+            let (_, verdict, _, _) = feed(
+                |buf| match r.parse(buf) {
+                    Ok(res) => match res.status {
+                        RequestParseStatus::Complete => Step::Complete(res.consumed),
+                        RequestParseStatus::Incomplete => Step::Incomplete(res.consumed),
+                    },
+                    Err(e) => Step::Reject(err_cat(&e)),
+                },
+                &dels,
+            );
+            match verdict.as_str() {
+                "C" => Ok(true),
+                "N" => Ok(false),
+                v => Err(v[2..].to_string()),
+            }
+        },
+        None => match r.parse(&input) {
+            Ok(res) => Ok(res.status == RequestParseStatus::Complete),
+            Err(e) => Err(err_cat(&e)),
+        },
+    };
+    let canon = match first {
+        Ok(true) => match measure(|| r.generate()) {
             Ok(g) => format!(
                 "first={};gen={};back={}",
                 req_fields(&r),
@@ -545,16 +582,40 @@ fn run_rtreq(a: &[&str]) -> (String, String) {
             ),
             Err(e) => format!("first={};generr:{}", req_fields(&r), err_cat(&e)),
         },
-        Ok(_) => "notcomplete:I".to_string(),
-        Err(e) => format!("notcomplete:R:{}", err_cat(&e)),
+        Ok(false) => "notcomplete:I".to_string(),
+        Err(e) => format!("notcomplete:R:{}", e),
     };
     (canon, String::new())
 }
 fn run_rtresp(a: &[&str]) -> (String, String) {
     let input = unhex(a[0]);
     let mut r = Response::new();
-    let canon = match r.parse(&input) {
-        Ok(res) if res.status == ResponseParseStatus::Complete => {
+    let first = match a.get(2).filter(|s| **s != "-") {
+        Some(spec) => {
+            let dels = deliveries(spec);
+            let (_, verdict, _, _) = feed(
+                |buf| match r.parse(buf) {
+                    Ok(res) => match res.status {
+                        ResponseParseStatus::Complete => Step::Complete(res.consumed),
+                        ResponseParseStatus::Incomplete => Step::Incomplete(res.consumed),
+                    },
+                    Err(e) => Step::Reject(err_cat(&e)),
+                },
+                &dels,
+            );
+            match verdict.as_str() {
+                "C" => Ok(true),
+                "N" => Ok(false),
+                v => Err(v[2..].to_string()),
+            }
+        },
+        None => match r.parse(&input) {
+            Ok(res) => Ok(res.status == ResponseParseStatus::Complete),
+            Err(e) => Err(err_cat(&e)),
+        },
+    };
+    let canon = match first {
+        Ok(true) => {
             // the value a caller would re-serialise: trailing data is not part of it
             match measure(|| r.generate()) {
                 Ok(g) => format!(
@@ -566,8 +627,8 @@ fn run_rtresp(a: &[&str]) -> (String, String) {
                 Err(e) => format!("first={};generr:{}", resp_fields(&r), err_cat(&e)),
             }
         },
-        Ok(_) => "notcomplete:I".to_string(),
-        Err(e) => format!("notcomplete:R:{}", err_cat(&e)),
+        Ok(false) => "notcomplete:I".to_string(),
+        Err(e) => format!("notcomplete:R:{}", e),
     };
     (canon, String::new())
 }
@@ -652,6 +713,7 @@ fn run_case(kind: &str, args: &[&str]) -> (String, String) {
         "req" => run_req(args),
         "resp" => run_resp(args),
         "dec" => run_dec(args),
+        "decseq" => run_decseq(args),
         "txt" => run_txt(args),
         "genreq" => run_genreq(args),
         "genresp" => run_genresp(args),
